@@ -203,9 +203,34 @@ pub fn sdes_bodies_space(words: usize, alphabet: Vec<u8>, counts: Vec<u8>) -> By
 
 /// S6: giant inputs.
 pub fn giants_space() -> ByteSpace {
-    ByteSpace::new("S6-giants", 8 * 4 + 4, move |idx, out| {
+    ByteSpace::new("S6-giants", 8 * 4 + 4 + 45, move |idx, out| {
         out.clear();
-        if idx < 32 {
+        if idx >= 36 {
+            // giant feedback packets under each FCI type's own (kind, format) gate, so that the FCI parsers and
+            // their iterators run over 16 384 words and more (where a 16-bit word index or byte offset wraps)
+            let k = idx - 36;
+            let (pt, fmt) = [(205u8, 1u8), (206, 1), (206, 2), (206, 3), (206, 4)][(k % 5) as usize];
+            let total = [65_548usize, 131_072, 262_144][((k / 5) % 3) as usize];
+            let fill = k / 15;
+            out.resize(total, 0);
+            for (i, b) in out.iter_mut().enumerate().skip(12) {
+                *b = match fill {
+                    0 => 0x00,
+                    1 => 0xFF,
+                    _ => ((i as u32).wrapping_mul(0x9E37_79B1) >> 13) as u8,
+                };
+            }
+            out[0] = 0x80 | fmt;
+            out[1] = pt;
+            let words = (total / 4 - 1) as u16;
+            out[2] = (words >> 8) as u8;
+            out[3] = words as u8;
+            out[4..12].copy_from_slice(&[1, 2, 3, 4, 5, 6, 7, 8]);
+            if fmt == 3 && pt == 206 {
+                // RPSI: a PB that fits
+                out[12] = [0u8, 8, 7][fill as usize];
+            }
+        } else if idx < 32 {
             // 0xFFFF-length packets of each type, all-zero / all-FF / count-maximal bodies
             let pt = [200u8, 201, 202, 203, 204, 205, 206, 207][(idx % 8) as usize];
             let variant = idx / 8;
